@@ -5,6 +5,6 @@ for X in ${ROUND:-C D}; do
   [ -f /tmp/seed/out/$ID/$X.patch.diff ] || { echo "$ID-$X: no patch"; continue; }
   /verif/tools/seed_confirm.sh $ID $X 2>&1 | tail -3
   if [ -d /verif/seeded/$ID-$X ]; then
-    /verif/tools/seedtest.sh /verif/seeded/$ID-$X/patch.diff $ID 2>&1 | grep -E "VIOLATION|tier=|CHECKER|DOES NOT" | cut -c1-230 | head -6
+    /verif/tools/seedtest_wt.sh /verif/seeded/$ID-$X/patch.diff $ID quick $ID 2>&1 | grep -E "VIOLATION|tier=|CHECKER|DOES NOT" | cut -c1-230 | head -6
   fi
 done
